@@ -117,6 +117,8 @@ impl FeoxStore {
             }
             source = source.value_source().ok_or(FeoxError::StaleExtent)?;
         }
+        #[cfg(feoxdb_verif)]
+        crate::verif::sched::point("c08_before_pin");
         let extent = source.acquire_extent().ok_or(FeoxError::StaleExtent)?;
         let sector = source.sector.load(Ordering::Acquire);
         if self.memory_only || sector == 0 {
